@@ -4,6 +4,7 @@ import (
 	"bytes"
 	"fmt"
 	"math/rand"
+	"sort"
 
 	"github.com/evolbioinfo/goalign/align"
 	"github.com/evolbioinfo/gotree/io"
@@ -88,10 +89,14 @@ func parsimonyUPPASS(cur, prev *tree.Node, a align.Alignment, seqs []*AncestralS
 				possibilities = align.IupacCode[c]
 			} else {
 				if c == align.ALL_AMINO {
-					for k := range charToIndex {
-						possibilities = append(possibilities, k)
+					// All the characters of the alphabet except the two
+					// last ones ('-' and '*'), in a reproducible order
+					for k, idx := range charToIndex {
+						if idx < len(charToIndex)-2 {
+							possibilities = append(possibilities, k)
+						}
 					}
-					possibilities = possibilities[:len(possibilities)-2]
+					sort.Slice(possibilities, func(i, j int) bool { return possibilities[i] < possibilities[j] })
 				} else {
 					possibilities = append(possibilities, c)
 				}
